@@ -804,6 +804,10 @@ var c19Nasty = []string{
 }
 
 func c19RandBytes(rng *rand.Rand) []byte {
+	return []byte(dictMutate(rng, string(c19RandBytes0(rng)), " =\"", 12))
+}
+
+func c19RandBytes0(rng *rand.Rand) []byte {
 	switch rng.IntN(6) {
 	case 0:
 		n := rng.IntN(6)
@@ -922,6 +926,11 @@ func c19GenTree(rng *rand.Rand) string {
 			// an oversized line (beyond any pooled-buffer retention threshold), so that the
 			// records handled after it exercise whatever the pool hands back
 			r.msg = append(bytes.Repeat([]byte("long line "), 450+rng.IntN(500)), r.msg...)
+		}
+		if v, ok := dictInt(rng, 0, 6000); ok && rng.IntN(10) == 0 {
+			// a message whose length is next to an integer constant of the source (buffer size
+			// estimates, retention thresholds)
+			r.msg = append(bytes.Repeat([]byte("m"), int(v)), r.msg[:min(len(r.msg), 4)]...)
 		}
 		if rng.IntN(3) == 0 {
 			r.unix = 1700000000 + rng.Int64N(1000)
